@@ -63,6 +63,11 @@ def _parent_rows(variant):
     s = lambda n: smap.get(n, n)  # noqa: E731
     dm = tmap.get("__doses__", {})  # optional re-scaling of the two dose levels (molar units, nearly equal doses)
     rows = _parent_rows_base(t, s, extra_plate)
+    if tmap.get("__zero__"):
+        # further spellings of "nothing added": a real drug at dose 0 and (with a named control) the control at a positive dose,
+        # so that the treatment mapping carries the control sentinel on several rows
+        rows.insert(2, (s("s0"), "p0", ((t("b"), 1.0), (t("a"), 0.0)), 0.2, True))
+        rows.append((s("s1"), "p3", ((t("CTL"), 1.0), (t("c"), 0.0)), 0.36, False))
     return [(r[0], r[1], tuple((n, dm.get(repr(float(d)), d) if d else d) for n, d in r[2]), r[3], r[4]) for r in rows]
 
 
@@ -100,6 +105,9 @@ def parents(tier):
     # names that are equal up to a trailing / leading blank are different samples / drugs (a loader that trims collides them)
     out.append(("", {"U": "a "}, {"SU": "s0 "}, False))
     out.append(("ctl", {"U": " b", "c": "c "}, {"SU": " s1"}, True))
+    # several control spellings in one mapping
+    out.append(("ctl", {"U": "zlast", "__zero__": True}, smaps[1], False))
+    out.append(("", {"U": "0first", "__zero__": True}, smaps[2], True))
     return out
 
 
@@ -115,6 +123,10 @@ def plan(tier, seed):
         items.append({"variant": [v[0], v[1], v[2], v[3]], "fraction": 0.5, "supplied": True})
     for v in parents(tier)[:4]:
         items.append({"variant": [v[0], v[1], v[2], v[3]], "cli_train": True})
+    # environment dimension: the whole lifecycle with the package logger at DEBUG (what --verbose sets)
+    for v in (parents(tier)[1], parents(tier)[-1]):
+        for f in fr[:2]:
+            items.append({"variant": [v[0], v[1], v[2], v[3]], "fraction": f, "debug": True})
     ps = parents(tier)
     for ci, cfg in enumerate(CLI_CONFIGS):
         for pi in range(2 if tier == "quick" else 6):
@@ -481,6 +493,15 @@ def run_history(root, history, tmpdir):
 
 
 def run_item(item, col, tier):
+    if item.get("debug"):
+        from ..logctx import package_logger_at_debug
+
+        with package_logger_at_debug():
+            return _run_item(dict(item, debug=False, was_debug=True), col, tier)
+    return _run_item(item, col, tier)
+
+
+def _run_item(item, col, tier):
     if item.get("large"):
         return run_large_item({"n": item["large"], "fraction": item["fraction"]}, col, tier)
     if item.get("cli_train"):
@@ -590,6 +611,11 @@ def replay(case, col):
     if case.get("cli_train"):
         return run_cli_train_item({"variant": case["variant"], "cli_train": True}, col, "quick")
     item = case["item"]
+    if item.get("was_debug"):
+        from ..logctx import package_logger_at_debug
+
+        with package_logger_at_debug():
+            return replay(dict(case, item=dict(item, was_debug=False)), col)
     try:
         parent, train, test = prepare(item, Chooser(case["choices"]))
     except PairDisagreement as exc:
